@@ -148,6 +148,32 @@ theorem rollout_aligned (f : List α → List β) (g : α → β) (hf : ∀ xs, 
   have : (chunks bs ds).map f = (chunks bs ds).map (List.map g) := List.map_congr_left (fun c _ => hf c)
   rw [this, ← List.map_flatten, chunks_flatten bs hbs]
 
+/-- **C17 `rollout_eval_aligned`**: both rollout functions of the code base — `RolloutBaseline.rollout` and MDAM's own —
+put the policy into eval mode (extracted), so for a policy whose INFERENCE behaviour is row-wise the concatenated
+values are `map g ds` for every evaluation batch size, whatever the policy would do in training mode (`fTrain`
+arbitrary: batch-norm batch statistics, dropout …): the attached value does not depend on the rollout batch size
+or on batch-mates. -/
+theorem rollout_eval_aligned (fEval fTrain : List α → List β) (g : α → β) (hf : ∀ xs, fEval xs = xs.map g)
+    (bs : Nat) (hbs : 0 < bs) (ds : List α) :
+    blRollout fEval fTrain bs ds = ds.map g ∧ mdamRollout fEval fTrain bs ds = ds.map g := by
+  simp only [blRollout, mdamRollout, rolloutWith, Params.blRolloutEvalMode, Params.mdamRolloutEvalMode,
+    Params.mdamRolloutPlainConcat, if_true]
+  exact ⟨rollout_aligned fEval g hf bs hbs ds, rollout_aligned fEval g hf bs hbs ds⟩
+
+theorem rollout_eval_batch_size_independent (fEval fTrain : List α → List β) (g : α → β) (hf : ∀ xs, fEval xs = xs.map g)
+    (bs bs' : Nat) (hbs : 0 < bs) (hbs' : 0 < bs') (ds : List α) :
+    mdamRollout fEval fTrain bs ds = mdamRollout fEval fTrain bs' ds ∧ blRollout fEval fTrain bs ds = blRollout fEval fTrain bs' ds := by
+  rw [(rollout_eval_aligned fEval fTrain g hf bs hbs ds).1, (rollout_eval_aligned fEval fTrain g hf bs hbs ds).2,
+    (rollout_eval_aligned fEval fTrain g hf bs' hbs' ds).1, (rollout_eval_aligned fEval fTrain g hf bs' hbs' ds).2]
+  exact ⟨rfl, rfl⟩
+
+/-- without the `.eval()` call the training-mode behaviour is rolled out: a policy that centres its batch (as batch
+norm does) attaches values that depend on the evaluation batch size -/
+theorem rolloutWith_train_mode_counterexample :
+    let fTrain : List Int → List Int := fun xs => xs.map (fun x => x - xs.sum)
+    rolloutWith false (fun xs => xs) fTrain 1 [1, 2, 3] ≠ rolloutWith false (fun xs => xs) fTrain 3 [1, 2, 3] := by
+  decide
+
 theorem rollout_aligned' (f : List α → List β) (hf : RowWise f) (bs : Nat) (hbs : 0 < bs)
     (ds : List α) : ∃ g, (∀ xs, f xs = xs.map g) ∧ rollout f bs ds = ds.map g := by
   obtain ⟨g, hg⟩ := hf
